@@ -53,6 +53,27 @@ fn load_or_create_client(stronghold: &Stronghold) -> KeyStorageResult<Client> {
   }
 }
 
+/// Persists a newly written key. If that fails the caller gets an error instead of the key id, the only handle on the
+/// key: the secret is removed from the vault again so that it is not left behind in memory, from where the next
+/// successful write would persist it.
+pub async fn persist_new_key(
+  storage: &crate::StrongholdStorage,
+  stronghold: MutexGuard<'_, Stronghold>,
+  key_id: &KeyId,
+) -> KeyStorageResult<()> {
+  if let Err(error) = persist_changes(storage.as_secret_manager(), stronghold).await {
+    let stronghold = storage.get_stronghold().await;
+    if let Ok(client) = get_client(&stronghold) {
+      let _ = client
+        .vault(IDENTITY_VAULT_PATH.as_bytes())
+        .delete_secret(key_id.to_string().as_bytes());
+      let _ = stronghold.write_client(IDENTITY_CLIENT_PATH);
+    }
+    return Err(error);
+  }
+  Ok(())
+}
+
 pub async fn persist_changes(
   secret_manager: &SecretManager,
   stronghold: MutexGuard<'_, Stronghold>,
